@@ -797,6 +797,9 @@ WBXML_DECLARE(WB_BOOL) wbxml_buffer_remove_trailing_zeros(WBXMLBuffer *buffer)
  */
 static WB_BOOL grow_buff(WBXMLBuffer *buffer, WB_ULONG size)
 {
+    WB_UTINY *data     = NULL;
+    WB_ULONG  malloced = 0;
+
     if ((buffer == NULL) || buffer->is_static)
         return FALSE;
         
@@ -805,13 +808,17 @@ static WB_BOOL grow_buff(WBXMLBuffer *buffer, WB_ULONG size)
 
     if ((buffer->len + size) > buffer->malloced) {
         if ((buffer->malloced * 2) < (buffer->len + size))
-            buffer->malloced = buffer->len + size;
+            malloced = buffer->len + size;
         else
-            buffer->malloced *= 2;
+            malloced = buffer->malloced * 2;
             
-        buffer->data = wbxml_realloc(buffer->data, buffer->malloced);
-        if (buffer->data == NULL)
+        /* Keep the buffer as it is if there is not enough memory */
+        data = wbxml_realloc(buffer->data, malloced);
+        if (data == NULL)
             return FALSE;
+
+        buffer->data     = data;
+        buffer->malloced = malloced;
     }
 
     return TRUE;
